@@ -41,6 +41,14 @@ var (
 	hdrU  = mapping.NewUnmarshaler("header", mapping.WithStringValues(), mapping.WithCanonicalKeyFunc(textproto.CanonicalMIMEHeaderKey))
 )
 
+func init() {
+	if strictDotted {
+		// C08_STRICT=1 judges a flat dotted header as supplied: the direct header entry then copies the
+		// construction of candidate-fixes/header-opaque-keys.diff (httpx.Parse uses whatever the tree constructs)
+		hdrU = mapping.NewUnmarshaler("header", mapping.WithStringValues(), mapping.WithOpaqueKeys(), mapping.WithCanonicalKeyFunc(textproto.CanonicalMIMEHeaderKey))
+	}
+}
+
 type observation struct {
 	accepted bool
 	err      string
@@ -55,7 +63,7 @@ func buildRequest(c *Case) (*http.Request, string) {
 	hasJSON, jsonSupplied := false, false
 	var desc []string
 	for i, t := range c.Toks {
-		k := keyOf(i)
+		k := keyName(c.Fields, i)
 		src := c.Fields[i].Src
 		if src == "json" {
 			hasJSON = true
@@ -119,21 +127,17 @@ func (c *Case) doc() string {
 // inputText renders the input for reports.
 func inputText(c *Case) string {
 	switch c.Entry {
-	case EJSON, ECONF:
+	case EJSON, ECONF, EYAML:
 		return c.doc()
+	case ETOML:
+		return renderTOMLDoc(c.Fields, c.Toks)
 	case EKEY:
-		m := map[string]any{}
-		for i, t := range c.Toks {
-			if t.T != "absent" {
-				m[keyOf(i)] = native(t, c.Fields[i].Kind)
-			}
-		}
-		return fmt.Sprintf("%#v", m)
+		return fmt.Sprintf("%#v", nativeMap(c.Fields, c.Toks))
 	case EHTTP:
 		_, d := buildRequest(c)
 		return d
 	}
-	return fmt.Sprintf("%#v", renderStrMap(c.Entry, c.Toks))
+	return fmt.Sprintf("%#v", renderStrMap(c.Entry, c.Fields, c.Toks))
 }
 
 func execute(c *Case, typ reflect.Type) (ob observation) {
@@ -152,20 +156,18 @@ func execute(c *Case, typ reflect.Type) (ob observation) {
 		err = mapping.UnmarshalJsonBytes([]byte(c.doc()), ptr.Interface())
 	case ECONF:
 		err = conf.LoadFromJsonBytes([]byte(c.doc()), ptr.Interface())
+	case EYAML:
+		err = mapping.UnmarshalYamlBytes([]byte(c.doc()), ptr.Interface())
+	case ETOML:
+		err = mapping.UnmarshalTomlBytes([]byte(renderTOMLDoc(c.Fields, c.Toks)), ptr.Interface())
 	case EKEY:
-		m := make(map[string]any, len(c.Toks))
-		for i, t := range c.Toks {
-			if t.T != "absent" {
-				m[keyOf(i)] = native(t, c.Fields[i].Kind)
-			}
-		}
-		err = mapping.UnmarshalKey(m, ptr.Interface())
+		err = mapping.UnmarshalKey(nativeMap(c.Fields, c.Toks), ptr.Interface())
 	case EFORM:
-		err = formU.Unmarshal(renderStrMap(EFORM, c.Toks), ptr.Interface())
+		err = formU.Unmarshal(renderStrMap(EFORM, c.Fields, c.Toks), ptr.Interface())
 	case EPATH:
-		err = pathU.Unmarshal(renderStrMap(EPATH, c.Toks), ptr.Interface())
+		err = pathU.Unmarshal(renderStrMap(EPATH, c.Fields, c.Toks), ptr.Interface())
 	case EHDR:
-		err = hdrU.Unmarshal(renderStrMap(EHDR, c.Toks), ptr.Interface())
+		err = hdrU.Unmarshal(renderStrMap(EHDR, c.Fields, c.Toks), ptr.Interface())
 	case EHTTP:
 		r, _ := buildRequest(c)
 		err = httpx.Parse(r, ptr.Interface())
